@@ -278,12 +278,27 @@ impl RefGraph {
 
     /// The read as `data()` does it, but the collection is whatever the implementation did.
     pub fn data_adopt(&mut self, v: usize, removed: &[usize]) -> ReadOutcome {
-        let (value, first_read) = {
+        let (value, first_read, group) = {
             let m = self.present.get_mut(&v).unwrap();
             let first = m.unread;
             m.unread = false;
-            (m.data.clone(), first)
+            (m.data.clone(), first, m.group)
         };
+        // By the specification the group dies now if this was its last unread datum. Members the
+        // implementation leaves alive all the same (an exactness divergence, somebody else's clause)
+        // stop counting as a group: the limits the following calls are held to (groups alive,
+        // members per group) are those of the specification, not of the implementation's leftovers.
+        if let (true, Some(g)) = (first_read, group) {
+            if self.groups.get(&g).is_some_and(|s| !s.iter().any(|x| self.present[x].unread)) {
+                let members = self.groups.remove(&g).unwrap();
+                for x in members {
+                    if !removed.contains(&x) {
+                        self.present.get_mut(&x).unwrap().group = None;
+                    }
+                }
+                self.groups_died += 1;
+            }
+        }
         for r in removed {
             if let Some(mv) = self.present.remove(r) {
                 self.collected_ever.insert(*r);
